@@ -24,7 +24,9 @@ PROPERTY = 'C06'
 LEVEL = 'fault_enumeration'
 RULE = ('Scenario = generated chain + flush plan in one of four sync phases: initial sync, a '
         'caught-up server receiving 1..3 blocks, a caught-up server meeting a fork (depth 1..2), '
-        'an idle caught-up server. The uncancelled run is counted in scheduler steps (loop '
+        'an idle caught-up server, a caught-up server working through 5 new blocks in batches when '
+        'the daemon reorganises 1..3 deep below its tip at the k-th daemon call (the fork is met '
+        'with finished, unflushed blocks in memory). The uncancelled run is counted in scheduler steps (loop '
         'iterations, each stepping at most one gated job to its next storage operation) from the '
         'trigger on; cancellation points c are drawn (quick: 16 per scenario; thorough: every c) '
         'and for each a tape decides how the jobs that overlap after the cancellation (the '
@@ -40,7 +42,7 @@ ASSUMPTIONS = ['interleavings are explored at storage-operation granularity (sou
                'LevelDB batch atomicity', 'cancelling a coroutine that awaits a started executor '
                'job does not stop the job; the interpreter joins the executor at exit']
 BUDGET_S = {'quick': 150, 'thorough': 3300}
-PHASES = ['initial', 'caught_up', 'reorg', 'idle']
+PHASES = ['initial', 'caught_up', 'reorg', 'idle', 'midbatch_fork']
 
 
 def shards(tier):
@@ -55,7 +57,7 @@ CASE = st.builds(
     st.integers(0, 9), st.integers(1, 8),
     st.lists(scenario.block_desc(max_txs=4), min_size=6, max_size=12),
     st.lists(st.sampled_from([0, 0, 1, 2]), min_size=1, max_size=12),
-    st.sampled_from([0, 0, 1, 1, 1, 2, 2, 3]),
+    st.sampled_from([0, 0, 1, 1, 1, 2, 2, 3, 4, 4]),
     st.lists(scenario.block_desc(max_txs=4), min_size=1, max_size=3),
     st.integers(1, 2),
     st.lists(st.integers(0, 10 ** 6), min_size=16, max_size=16),
@@ -136,6 +138,24 @@ def run_once(scratch, case, cancel_at, tape):
                     while len(descs) < d + 1:
                         descs.append(descs[len(descs) % len(descs)])
                     world.fork(d, [dict(x, nonce=x['nonce'] + 61 + i) for i, x in enumerate(descs)])
+                elif phase == 'midbatch_fork':
+                    # several blocks arrive; while the processor is working through them in
+                    # batches (finished blocks of earlier batches not flushed yet) the daemon
+                    # reorganises below the processor's tip: the fork is met by a block advance
+                    # with completed, unflushed work in memory
+                    descs = list(case['extra'])
+                    while len(descs) < 5:
+                        descs.append(descs[len(descs) % len(descs)])
+                    world.extend([dict(x, nonce=x['nonce'] + 71 + i) for i, x in enumerate(descs)])
+                    left = [2 + case['cuts'][0] % 7]
+
+                    def on_call(name, left=left, descs=descs):
+                        left[0] -= 1
+                        if left[0] == 0:
+                            d = 1 + case['depth'] % 3
+                            world.fork(d, [dict(x, nonce=x['nonce'] + 91 + i)
+                                           for i, x in enumerate(descs[:d] + descs[:2])])
+                    node.daemon.on_call = on_call
                 state['armed'] = True
             if cancel_at is None:
                 if phase == 'idle':
